@@ -9,7 +9,8 @@ EXTENDS PathAlg, TLC, Json
 
 CONSTANTS Emit
 
-Outs == {<<"gen">>, <<".", "gen", "">>, <<"gen", "sub">>}
+\* an output location is a directory or an archive (.zip / .jar) that receives the files as entries
+Outs == {<<"gen">>, <<".", "gen", "">>, <<"gen", "sub">>, <<"gen", "one.zip">>, <<"gen", "two.jar">>}
 Names == {<<"x.txt">>, <<"sub", "x.txt">>, <<".", "pkg", "x.txt">>, <<"pkg", "x.txt">>, <<"..", "esc.txt">>,
           <<"pkg", "..", "..", "esc.txt">>, <<"", "abs.txt">>}
 FileRec(n, ins) == [name |-> n, insertion |-> ins]
